@@ -10,7 +10,9 @@ DESIGN_REF = 'DESIGN.md section 4, C07'
 TECHNIQUE = ("property-based testing: generated windowed trees (windows 1..4 at several levels, "
              "DAG wider than the window, raising and cancelled jobs, aborts and timeouts while "
              "jobs are queued) on a virtual-time loop; oracle = per-scheduler count of direct "
-             "members between body entry and body exit replayed over the global event order")
+             "members between body entry and body exit replayed over the global event order "
+             "+ enumerated family: a job queued for a slot is cancelled by a running sibling "
+             "(window x victim x nesting x set order)")
 LEVEL_TEXT = "generated search; the concurrency count is exact at every event"
 LEVEL_NOTE = ("trusts the trace recorder; a nested scheduler counts as one job of its parent "
               "from run-begin to run-exit")
@@ -88,6 +90,38 @@ from ._rt import with_variants                     # noqa: E402
 evaluate = with_variants(evaluate_one)
 
 
+def zap_sweep():
+    """a job that holds a slot cancels the task of a sibling still queued for one (a "cancelled
+    job" that never held a slot must not free one): window 1..3, 2..3 jobs more than the
+    window, every choice of victim, flat or nested, three iteration orders of the job set"""
+    combos = [(w, extra, v, nested, order) for w in (1, 2, 3) for extra in (2, 3)
+              for v in range(w + extra) for nested in (False, True) for order in (0, 1, 2)]
+
+    def chunk(k):
+        w, extra, v, nested, order = combos[k]
+        n = w + extra
+        jobs = [dict(kind='job', id='j%d' % i, cls='abstract' if i % 2 else 'coroutine', d=5,
+                     k=0, outcome='return', critical=False, forever=False, c=0, sd=0,
+                     hkey=((i + 1) * (3, 5, 7)[order]) % 11, tkey=0,
+                     zap=dict(at=1, who='j%d' % v))
+                for i in range(n)]
+        jobs[v].pop('zap')
+
+        def sched(ident, members, window):
+            return dict(kind='sched', id=ident, cls='nestable', window=window, timeout=None,
+                        sdt=1, critical=False, forever=False, verbose=False, hkey=0, tkey=0,
+                        members=members, edges=[], order=list(range(len(members))),
+                        build='ctor', wild=False)
+        inner = sched('s1' if nested else 's0', jobs, w)
+        if nested:
+            extra_job = dict(jobs[0], id='jx', hkey=9)
+            extra_job.pop('zap', None)
+            inner = sched('s0', [inner, extra_job], None)
+        yield inner
+    return ('a queued job is cancelled by a running sibling: window 1..3 x 2..3 extra jobs x '
+            'victim x flat/nested x 3 set orders', len(combos), chunk)
+
+
 def sweeps(tier):
     # deterministic part: flat schedulers of 9 .. 1025 members (just above powers of two)
-    return [S.ladder_sweep(['plain', 'critical'])]
+    return [S.ladder_sweep(['plain', 'critical']), zap_sweep()]
